@@ -110,7 +110,9 @@ def main():
               "  expansion) -> frozen custom groups with q of 257-521 bits; C06-r5B (blinding memo without the seeds,",
               "  visible only after a restart) -> a restart variant in C06; C03-r5A (`sys.byteorder` instead of a literal",
               "  'little') -> a big-endian-host seam in C03 (sys.byteorder patched for the run); C03-r5B (hand-rolled HKDF",
-              "  wrong beyond 64 output bytes) is reached by the new q > 384-bit pool groups.",
+              "  wrong beyond 64 output bytes) is reached by the new q > 384-bit pool groups; C05-r5A/B (hex text of an",
+              "  element accepted; finish() collapsing a latin-1->UTF-8 expanded message) -> *text-form* faults (hex,",
+              "  HEX, base64, latin-1 read back as UTF-8, of the element or of the whole message) in C05 and C02.",
               "* round-3 change C07-r3A (`_started` set only when start() succeeds, so a start() after a start() whose",
               "  entropy function raised returns the one and only message) was **not kept**: the statement bounds the",
               "  number of messages returned (at most one) and fixes the error only for calls after a message was",
